@@ -296,7 +296,7 @@ class ColumnInfo(Immutable):
             unit=Unit.deserialize(d['unit']),
             scale=d['scale'],
             continuous=d['continuous'],
-            categories=d['categories'],
+            categories=ColumnInfo._canonicalize_categories(d['categories']),
             drop=d['drop'],
             datatype=d['datatype'],
             descriptor=d['descriptor'],
